@@ -263,7 +263,8 @@ URING_KEYS = {   # (case name prefix, verdict tag) -> key
 def uring_cases(tier):
     cases = [("basic",), ("cancel",), ("prestop",), ("eisdir",), ("stoprace", "200"),
              ("xfer", "10000", "3000", "1000"), ("xfer", "5000", "5000", "4096"), ("xfer", "1", "1", "1"),
-             ("remote", "3", "40"), ("release",), ("resubmit", "300"), ("cancelmany", "300")]
+             ("remote", "3", "40"), ("release",), ("resubmit", "300"), ("cancelmany", "300"),
+             ("resubmit", "640")]     # more completions than the completion ring has slots, harvested in batches: wrap-around
     if tier != "quick":
         cases += [("stoprace", "1000"), ("xfer", "100000", "4096", "4096"), ("xfer", "9000", "100", "8192"),
                   ("remote", "6", "200"), ("resubmit", "700"), ("resubmit", "257"), ("cancelmany", "450")]
